@@ -334,6 +334,10 @@ def run(rep):
     for kind in ("mstdp", "mstdpet"):
         for sign in c08.SIGNS:
             jobs.append((c08.reduction_shard, (kind, "dense", (1, 1), 1.0, sign, "sum")))
+            # applied after every step under every reward sign sequence: the applied change is that step's signed rule
+            jobs.append((c08.applied_shard, (kind, sign, 3)))
+            if kind == "mstdp":
+                jobs.append((c08.applied_shard, (kind, sign, 3, True)))
             jobs.append((c08.multicell_shard, (kind, sign, 3)))
     for rule in ("da-mstdp", "da-mstdpd"):
         for sign in c18.SIGNS:
